@@ -572,9 +572,13 @@ func (m *Machine) intrinsic(name string, fn *ssa.Function, args []Value) (Value,
 	case "fmt.Sprintf", "fmt.Sprint", "fmt.Sprintln":
 		return strLit("<" + name + ">"), true
 	case "log.Printf", "log.Println", "log.Print", "(*log.Logger).Printf", "(*log.Logger).Println", "(*log.Logger).Print",
-		"fmt.Printf", "fmt.Println", "fmt.Print", "fmt.Fprintf", "fmt.Fprintln", "fmt.Fprint", "log.SetFlags", "log.SetOutput":
+		"fmt.Printf", "fmt.Println", "fmt.Print", "log.SetFlags", "log.SetOutput":
 		if _, used := m.redirects[name]; !used {
 			return m.zero(fn.Signature.Results()), true
+		}
+	case "fmt.Fprintf", "fmt.Fprintln", "fmt.Fprint":
+		if _, used := m.redirects[name]; !used {
+			return m.fmtToWriter(name, args), true
 		}
 	case "log.Fatal", "log.Fatalf", "log.Fatalln", "os.Exit", "(*log.Logger).Fatal", "(*log.Logger).Fatalf", "(*log.Logger).Fatalln":
 		m.require(False, "panic", "process exit via "+name)
